@@ -233,9 +233,6 @@ Section Proofs.
     Qed.
 
     (* ------------------------------------------------ the law of one entry *)
-    Definition old_or (o : option value) (dflt : value) : value :=
-      match o with Some x => x | None => dflt end.
-
     (* what the entry (k, v) of the patch does to the value held under k:
        [old] before, the last index after *)
     Inductive entry_law (v : value) (old : option value) : option value -> Prop :=
@@ -385,8 +382,6 @@ Section Proofs.
 
   (* ---------------------------------------------------------------- *)
   (* the list merge against the index-based specification *)
-  Definition ok_of {A} (r : res A) : option A := match r with Ok a => Some a | Err _ => None end.
-
   Lemma zip_item_shift merge origs n news i :
     zip_item fold merge origs (n :: news) (S i) = zip_item fold merge (tl origs) news i.
   Proof.
@@ -476,12 +471,6 @@ Section Proofs.
   Qed.
 
   (* appending: placeholders for every existing item, then new objects *)
-  Fixpoint each_new (rec : value -> value -> res value) (l : list value) : res (list value) :=
-    match l with
-    | [] => Ok []
-    | n :: l' => do d <- rec n (VDict DPlain []); do r <- each_new rec l'; Ok (d :: r)
-    end.
-
   Lemma merge_append rec (origs extras : list value) :
     Forall (fun o => o <> VNone) origs ->
     Forall (fun n => n <> VNone /\ carries_delete n = false) extras ->
@@ -1153,5 +1142,194 @@ Section Proofs.
         rewrite (IH x v H). cbn [write_back]. rewrite (norm_index_of _ _ _ I).
         rewrite replace_nth_same by exact N. reflexivity.
   Qed.
+
+  (* ================================================================ *)
+  (* deleting / appending list items, at the level of update *)
+  Lemma carries_is_dict v : carries_delete v = true -> is_dict v = true.
+  Proof. destruct v; cbn; congruence. Qed.
+
+  Lemma object_list_placeholders i l :
+    object_list (VList l) = true -> object_list (VList (repeat VNone i ++ l)) = true.
+  Proof. intros H. induction i as [|i IH]; [exact H|exact IH]. Qed.
+
+  Lemma object_list_dicts l :
+    Forall (fun n => is_dict n = true) l -> object_list (VList l) = true.
+  Proof.
+    intros H. induction H as [|n l Hn _ IH]; [reflexivity|].
+    cbn [object_list forallb] in *. rewrite IH. destruct n; try discriminate. reflexivity.
+  Qed.
+
+  Lemma list_entry_inv rec ow lv old new :
+    entry_law rec ow (VList lv) old new -> object_list (VList lv) = true ->
+    exists origs newl, py_iter (old_or old (VList [])) = Ok origs /\
+                       merge_lists fold rec origs lv = Ok newl /\ new = Some (VList newl).
+  Proof.
+    intros L Hol.
+    inversion L as [Hi Hcd Ho|r0 Hi Hcd Hr|lv' origs newl Hv Hol' Hit Hml|Hp Hm Ho|Hp Hm Ho|Hp Hm Ho1 Ho2];
+      subst; try discriminate;
+      try (unfold plain_value in Hp; rewrite Hol in Hp; cbn in Hp; discriminate).
+    injection Hv as <-. eauto.
+  Qed.
+
+  Lemma update_delete_item ow c1 c2 m p r k i n orig :
+    wf_items c1 m -> carries_delete (VDict c2 p) = false -> patch_keys_distinct c1 p ->
+    update fold ow (VDict c2 p) (VDict c1 m) = Ok r ->
+    In (k, VList (repeat VNone i ++ [n])) p -> carries_delete n = true ->
+    lookup (VDict c1 m) k = Some (VList orig) -> Forall (fun o => o <> VNone) orig ->
+    (i < length orig)%nat ->
+    lookup r k = Some (VList (firstn i orig ++ skipn (S i) orig)).
+  Proof.
+    intros Hw Hc Hd HU Hin Hcn Hl Hf Hi.
+    pose proof (update_key_law ow c1 c2 m p Hw Hc Hd r k _ HU Hin) as L.
+    assert (Hol : object_list (VList (repeat VNone i ++ [n])) = true).
+    { apply object_list_placeholders. apply object_list_dicts. constructor; [|constructor].
+      apply carries_is_dict. exact Hcn. }
+    destruct (list_entry_inv _ _ _ _ _ L Hol) as (origs & newl & Hit & Hml & ->).
+    rewrite Hl in Hit. cbn [old_or py_iter] in Hit. injection Hit as <-.
+    rewrite merge_delete_item in Hml; auto.
+    - injection Hml as <-. reflexivity.
+    - intros ->. discriminate.
+  Qed.
+
+  Lemma update_list_append ow c1 c2 m p r k extras orig :
+    wf_items c1 m -> carries_delete (VDict c2 p) = false -> patch_keys_distinct c1 p ->
+    update fold ow (VDict c2 p) (VDict c1 m) = Ok r ->
+    In (k, VList (repeat VNone (length orig) ++ extras)) p ->
+    Forall (fun n => is_dict n = true /\ carries_delete n = false) extras ->
+    lookup (VDict c1 m) k = Some (VList orig) -> Forall (fun o => o <> VNone) orig ->
+    exists news, each_new (update fold ow) extras = Ok news /\ lookup r k = Some (VList (orig ++ news)).
+  Proof.
+    intros Hw Hc Hd HU Hin He Hl Hf.
+    pose proof (update_key_law ow c1 c2 m p Hw Hc Hd r k _ HU Hin) as L.
+    assert (Hol : object_list (VList (repeat VNone (length orig) ++ extras)) = true).
+    { apply object_list_placeholders. apply object_list_dicts.
+      eapply Forall_impl; [|exact He]. cbn. tauto. }
+    destruct (list_entry_inv _ _ _ _ _ L Hol) as (origs & newl & Hit & Hml & ->).
+    rewrite Hl in Hit. cbn [old_or py_iter] in Hit. injection Hit as <-.
+    rewrite merge_append in Hml; auto.
+    - destruct (each_new (update fold ow) extras) as [news|e]; cbn [bind] in Hml; [|discriminate].
+      injection Hml as <-. eauto.
+    - eapply Forall_impl; [|exact He]. cbn. intros n [Hn Hcn]. split; [|exact Hcn].
+      intros ->. discriminate.
+  Qed.
+
+  (* ================================================================ *)
+  (* totality: within shape compatibility update raises nothing *)
+  Section Total.
+    Variable rec : value -> value -> res value.
+    Variable ow : bool.
+    Variable comp : value -> value -> Prop.
+
+    Lemma merge_total lv : forall lo,
+      Forall (fun n => forall o, comp n o -> exists r, rec n o = Ok r) lv ->
+      compat_items fold comp lv lo -> exists newl, merge_lists fold rec lo lv = Ok newl.
+    Proof.
+      induction lv as [|n lv IH]; intros lo Hrec Hc; cbn [merge_lists]; [eauto|].
+      inversion Hrec as [|? ? Hn Hrec']; subst.
+      cbn [compat_items] in Hc. destruct Hc as [Hc Hcs].
+      destruct (IH (tl lo) Hrec' Hcs) as (rest & Hrest).
+      assert (G : n <> VNone ->
+                  exists newl,
+                    (if delete_flag fold n then merge_lists fold rec (tl lo) lv
+                     else do d <- rec n (none_to_empty (hd VNone lo));
+                          do rest <- merge_lists fold rec (tl lo) lv; Ok (d :: rest)) = Ok newl).
+      { intros Hnn. rewrite delete_flag_carries. destruct (carries_delete n) eqn:Cd; [eauto|].
+        destruct Hc as [->|[Hc|Hc]]; [congruence|congruence|].
+        destruct (Hn _ Hc) as (d & ->). cbn [bind]. rewrite Hrest. cbn [bind]. eauto. }
+      destruct n; try (apply G; discriminate).
+      rewrite Hrest. cbn [bind]. eauto.
+    Qed.
+
+    Lemma entry_total c s k v :
+      (match v with
+       | VDict _ _ => forall o, comp v o -> exists r, rec v o = Ok r
+       | VList lv => Forall (fun n => forall o, comp n o -> exists r, rec n o = Ok r) lv
+       | _ => True
+       end) ->
+      compat_entry fold comp (VDict c s) k v ->
+      exists d', update_entry fold rec ow (VDict c s) k v = Ok d'.
+    Proof.
+      assert (Hsc : exists d', update_scalar fold ow (VDict c s) k v = Ok d').
+      { unfold update_scalar. cbn [py_contains bind]. destruct (d_contains fold c k s) eqn:M; cbn [andb].
+        - destruct (py_eqb v (VStr DELETE)).
+          + unfold py_delitem, d_del. unfold d_contains in M. rewrite M. cbn [bind]. eauto.
+          + destruct (ow || negb true); cbn [py_setitem]; eauto.
+        - rewrite orb_true_r. cbn [py_setitem]. eauto. }
+      intros Hrec Hc. destruct v as [| | | | |lv|cv sv]; cbn [update_entry]; try exact Hsc.
+      - rewrite is_objlist_object_list. cbn [compat_entry] in Hc.
+        destruct (object_list (VList lv)); [|exact Hsc].
+        destruct Hc as (lo & Hlo & Hci). cbn [py_get bind]. unfold d_get.
+        change (DictUtils.nk fold c k) with (key_of c k). cbn [UpdateSpec.lookup] in Hlo.
+        rewrite Hlo. cbn [py_iter bind].
+        destruct (merge_total lv lo Hrec Hci) as (newl & ->). cbn [bind py_setitem]. eauto.
+      - rewrite delete_flag_carries. cbn [compat_entry] in Hc.
+        destruct (carries_delete (VDict cv sv)).
+        + unfold py_delitem, d_del. change (DictUtils.nk fold c k) with (key_of c k).
+          cbn [UpdateSpec.lookup] in Hc. rewrite od_mem_assoc.
+          destruct (assoc (key_of c k) s); [cbn [bind]; eauto|contradiction].
+        + cbn [py_get bind]. unfold d_get. change (DictUtils.nk fold c k) with (key_of c k).
+          cbn [UpdateSpec.lookup] in Hc.
+          destruct (Hrec _ Hc) as (r & Hr).
+          destruct (assoc (key_of c k) s); rewrite Hr; cbn [bind py_setitem]; eauto.
+    Qed.
+
+    Lemma compat_entry_frame c s s1 k v :
+      assoc (key_of c k) s1 = assoc (key_of c k) s ->
+      compat_entry fold comp (VDict c s) k v -> compat_entry fold comp (VDict c s1) k v.
+    Proof.
+      intros E. unfold compat_entry. cbn [UpdateSpec.lookup]. rewrite E. tauto.
+    Qed.
+
+    Lemma loop_total c : forall l s,
+      wf_items c s -> patch_keys_distinct c l ->
+      Forall (fun kv => match snd kv with
+                        | VDict _ _ => forall o, comp (snd kv) o -> exists r, rec (snd kv) o = Ok r
+                        | VList lv => Forall (fun n => forall o, comp n o -> exists r, rec n o = Ok r) lv
+                        | _ => True
+                        end) l ->
+      compat_entries fold comp (VDict c s) l ->
+      exists r, update_loop fold rec ow l (VDict c s) = Ok r.
+    Proof.
+      induction l as [|[k v] l IH]; intros s Hw Hd Hrec Hc; cbn [update_loop]; [eauto|].
+      inversion Hrec as [|? ? Hv Hrec']; subst. cbn [snd] in Hv.
+      cbn [compat_entries] in Hc. destruct Hc as [Hce Hcs].
+      destruct (entry_total c s k v Hv Hce) as (d' & E). rewrite E. cbn [bind].
+      pose proof (entry_shape _ _ _ _ _ _ _ E) as Es.
+      destruct (entry_out_wf _ _ _ _ Es Hw) as (s1 & -> & Hw1).
+      destruct (distinct_tail _ _ _ _ Hd) as [Hm Hd'].
+      apply IH; auto.
+      clear IH Hrec Hrec' Hd Hd' Hv Hce E. induction l as [|[k2 v2] l IHl]; [exact I|].
+      cbn [compat_entries] in *. destruct Hcs as [H2 Hcs].
+      apply not_mentions_tail in Hm. destruct Hm as [Hne Hm].
+      split; [|apply IHl; assumption].
+      eapply compat_entry_frame; [|exact H2].
+      eapply entry_out_frame; [exact Es|]. congruence.
+    Qed.
+  End Total.
+
+  Definition total_at (ow : bool) (v : value) : Prop :=
+    forall d1, compatible fold v d1 -> exists r, update fold ow v d1 = Ok r.
+
+  Lemma update_total_strong ow d2 :
+    total_at ow d2 /\ match d2 with VList lv => Forall (total_at ow) lv | _ => True end.
+  Proof.
+    induction d2 as [| | | | |lv IH|c2 p IH] using value_ind';
+      try solve [split; [intros d1 H; destruct H|exact I]].
+    - split; [intros d1 H; destruct H|].
+      eapply Forall_impl; [|exact IH]. cbn. tauto.
+    - split; [|exact I]. intros d1 Hc. cbn [compatible] in Hc.
+      destruct (carries_delete (VDict c2 p)) eqn:Cd.
+      + rewrite update_root_delete by exact Cd. eauto.
+      + destruct Hc as [Hc|Hc]; [discriminate|].
+        rewrite update_unfold by exact Cd.
+        destruct d1 as [| | | | | |c1 m]; try (subst p; cbn [update_loop]; eauto).
+        destruct Hc as (Hw & Hd & Hce).
+        eapply loop_total; [exact Hw|exact Hd| |exact Hce].
+        eapply Forall_impl; [|exact IH]. intros [k v] [Ht Hl]. cbn [snd] in *.
+        destruct v; try exact I; [exact Hl|exact Ht].
+  Qed.
+
+  Lemma update_total ow d2 d1 : compatible fold d2 d1 -> exists r, update fold ow d2 d1 = Ok r.
+  Proof. exact (proj1 (update_total_strong ow d2) d1). Qed.
 
 End Proofs.
